@@ -18,10 +18,15 @@
 (***************************************************************************)
 EXTENDS SpectrumOps, Json
 
-CONSTANTS ShapeSet, AnyOrder
+CONSTANTS ShapeSet, AnyOrder,
+          DestSet,           \* where the result goes: "stdout", or -o PATH naming a "fresh" path, a "stale" file (older and
+                             \* LONGER content) or the input file itself ("inplace")
+          AB_KeepOldTail     \* sabotage (seeded change C13d): the destination is opened without truncation
 
-VARIABLES shape0, opts, sp, norm, applied
-vars == <<shape0, opts, sp, norm, applied>>
+VARIABLES shape0, opts, sp, norm, applied,
+          dest,              \* the destination of this invocation
+          file               \* what the destination holds: [k |-> "none"] | [k |-> "old"] | [k |-> "result", tail |-> BOOLEAN]
+vars == <<shape0, opts, sp, norm, applied, dest, file>>
 
 Rank(op) == CASE op = "marg" -> 1 [] op = "proj" -> 2 [] op = "mask" -> 3 [] op = "norm" -> 4
 
@@ -44,6 +49,8 @@ Init ==
     /\ sp = Identity(shape0)
     /\ norm = LFZero
     /\ applied = <<>>
+    /\ dest \in DestSet
+    /\ file = IF dest \in {"stale", "inplace"} THEN [k |-> "old"] ELSE [k |-> "none"]
 
 Done(op) == \E i \in 1..Len(applied) : applied[i] = op
 MayApply(op) ==
@@ -55,7 +62,7 @@ MayApply(op) ==
 Marg == /\ MayApply("marg")
         /\ sp' = MarginalizeDecl(sp, opts.marg)
         /\ applied' = Append(applied, "marg")
-        /\ UNCHANGED <<shape0, opts, norm>>
+        /\ UNCHANGED <<shape0, opts, norm, dest, file>>
 
 ProjTargetNow ==
     IF Len(sp.shape) = Len(opts.proj) THEN opts.proj
@@ -67,22 +74,30 @@ ProjTargetNow ==
 Proj == /\ MayApply("proj")
         /\ sp' = ProjectDecl(sp, ProjTargetNow)
         /\ applied' = Append(applied, "proj")
-        /\ UNCHANGED <<shape0, opts, norm>>
+        /\ UNCHANGED <<shape0, opts, norm, dest, file>>
 
 Mask == /\ MayApply("mask")
         /\ sp' = MaskOp(sp)
         /\ applied' = Append(applied, "mask")
-        /\ UNCHANGED <<shape0, opts, norm>>
+        /\ UNCHANGED <<shape0, opts, norm, dest, file>>
 
 Norm == /\ MayApply("norm")
         /\ norm' = Total(sp)
         /\ applied' = Append(applied, "norm")
-        /\ UNCHANGED <<shape0, opts, sp>>
+        /\ UNCHANGED <<shape0, opts, sp, dest, file>>
 
-Next == Marg \/ Proj \/ Mask \/ Norm
+Computed == \A op \in Selected(opts) : Done(op)
+
+(* the output commit: the destination is created or TRUNCATED and then holds the rendering of the result and nothing *)
+(* else - whatever it held before (an older, longer output; the input itself) leaves no trace                       *)
+Commit == /\ Computed /\ file.k # "result"
+          /\ file' = [k |-> "result", tail |-> (AB_KeepOldTail /\ file.k = "old")]
+          /\ UNCHANGED <<shape0, opts, sp, norm, applied, dest>>
+
+Next == Marg \/ Proj \/ Mask \/ Norm \/ Commit
 Spec == Init /\ [][Next]_vars
 
-Finished == \A op \in Selected(opts) : Done(op)
+Finished == Computed /\ file.k = "result"
 
 (* the documented pipeline as one expression *)
 Documented ==
@@ -104,12 +119,15 @@ MaskExact ==
 NormalizedSumsToOne ==
     (applied # <<>> /\ applied[Len(applied)] = "norm") => norm = Total(sp)
 
+(* the destination holds exactly the result: combined and chained invocations agree on FILES too *)
+DestinationHoldsOnlyResult == Finished => ~file.tail
+
 NoOptionsIsIdentity == (Selected(opts) = {} /\ applied = <<>>) => sp = Identity(shape0)
 
 Emit ==
     Finished =>
         PrintT("REPLAY " \o ToJson([family |-> "view", shape |-> shape0,
                                     marg |-> {a - 1 : a \in opts.marg}, proj |-> opts.proj, mask |-> opts.mask, norm |-> opts.norm,
-                                    applied |-> applied,
+                                    applied |-> applied, dest |-> dest,
                                     result |-> SpJson(sp), divisor |-> LFJson(norm)]))
 =============================================================================
